@@ -564,4 +564,6 @@ func runC02(c *Ctx) {
 	c.nodeEntryPoints(4 + c.N/40)
 	c.opSequences(c.N)
 	c.otherGenerators(8 + c.N/10)
+	// round 2: the operations of Model/MeshMore.lean (c03_more.go): shape vs model + WF on every result
+	c.moreOps(20+c.N/4, "c02.holds.wf", c.emitMore02)
 }
